@@ -99,12 +99,18 @@ Definition want_lease (gw : N) (c : chan) : N :=
 Definition ok_returned (gw : N) (req : list chan) (retr over : bool) (seen : list N)
            (before : obs) (ret : list (N * raw_chan)) : bool :=
   let fresh := filter (fun kc => negb (mem kc.1 seen)) ret in
-  nodupb (fst <$> fresh) &&
+  (* with retrieve/overwrite a channel created by this very request may be handed back a second
+     time (found by name): identical entries count once *)
+  nodupb (fst <$> (if retr || over then remove_dups fresh else fresh)) &&
   forallb (fun kc =>
      let c := mk_chan kc.2 in
      if mem kc.1 seen then
-       (retr || over) &&
-       existsb (fun kb => (kb.1 =? kc.1) && name_eqb (c_name (mk_chan kb.2)) (c_name c)) (ob_tab before)
+       (* an existing live channel: found by name through retrieve/overwrite, or the request itself
+          carried its key (re-submission of an existing channel) *)
+       ((retr || over) &&
+        existsb (fun kb => (kb.1 =? kc.1) && name_eqb (c_name (mk_chan kb.2)) (c_name c)) (ob_tab before)) ||
+       (existsb (fun r => negb (c_lkey r =? 0) && (new_key (want_lease gw r) (c_lkey r) =? kc.1)) req &&
+        existsb (fun kb => kb.1 =? kc.1) (ob_tab before))
      else
        (kc.1 =? chan_key c) && (leaseholder kc.1 =? c_lease c) && (local_key kc.1 =? c_lkey c) &&
        (0 <? c_lkey c) &&
@@ -135,8 +141,14 @@ Definition same_stores (a b : obs) : bool :=
   bool_decide (sort_by_key ((fun ne => (ne.1, sort_by_key ne.2)) <$> ob_eng a) =
                sort_by_key ((fun ne => (ne.1, sort_by_key ne.2)) <$> ob_eng b)).
 
-(* [clean]: every operation so far succeeded, or failed without changing either store (the
-   metadata = engines clause is stated for histories of successful operations) *)
+Definition is_rename (o : op) : bool := match o with Rename _ _ _ => true | _ => false end.
+
+(* [clean]: metadata = engines was observed to hold before this operation. The clause is demanded
+   again after the operation when it succeeded, and after ANY rename, accepted or rejected: a
+   rename has no window in which one store is ahead of the other (the metadata update is the
+   validating step and runs first), so a rejected rename must not leave the two stores apart.
+   Rejected creates and deletes may (engine-first / metadata-first windows, see
+   C15_failed_delete_diverges); the clause is re-armed as soon as the stores agree again. *)
 Fixpoint ok_steps (validate : bool) (seen : list N) (clean : bool) (before : obs) (tr : list step_t) : bool :=
   match tr with
   | [] => true
@@ -149,12 +161,13 @@ Fixpoint ok_steps (validate : bool) (seen : list N) (clean : bool) (before : obs
       (* a key that shows up in a store now and was not there before the op was never seen *)
       let appeared := filter (fun k => negb (mem k (okeys before))) (okeys ob) in
       let ok_new := forallb (fun k => negb (mem k seen)) appeared in
-      let clean' := clean && (is_ok er || same_stores before ob) in
+      let demanded := clean && (is_ok er || is_rename o) in
+      let cons_now := ok_meta_engine ob in
       okr && ok_new &&
       (if validate then ok_names ob else true) &&
-      (if clean' then ok_meta_engine ob else true) &&
+      (if demanded then cons_now else true) &&
       ok_gone ob &&
-      ok_steps validate (seen ++ okeys ob ++ (fst <$> ret)) clean' ob rest
+      ok_steps validate (seen ++ okeys ob ++ (fst <$> ret)) cons_now ob rest
   end.
 
 (* which clause fails at which step (for replays): 1 returned keys, 2 reappearing key, 3 names,
@@ -171,19 +184,20 @@ Fixpoint why_steps (validate : bool) (i : nat) (seen : list N) (clean : bool) (b
                  end in
       let appeared := filter (fun k => negb (mem k (okeys before))) (okeys ob) in
       let ok_new := forallb (fun k => negb (mem k seen)) appeared in
-      let clean' := clean && (is_ok er || same_stores before ob) in
+      let demanded := clean && (is_ok er || is_rename o) in
+      let cons_now := ok_meta_engine ob in
       (if okr then [] else [(i, 1%nat)]) ++ (if ok_new then [] else [(i, 2%nat)]) ++
       (if validate && negb (ok_names ob) then [(i, 3%nat)] else []) ++
-      (if clean' && negb (ok_meta_engine ob) then [(i, 4%nat)] else []) ++
+      (if demanded && negb cons_now then [(i, 4%nat)] else []) ++
       (if ok_gone ob then [] else [(i, 5%nat)]) ++
-      why_steps validate (S i) (seen ++ okeys ob ++ (fst <$> ret)) clean' ob rest
+      why_steps validate (S i) (seen ++ okeys ob ++ (fst <$> ret)) cons_now ob rest
   end.
 Definition why (c : case_t) : list (nat * nat) :=
   match c with
   | (v, o0, tr) =>
       (if v && negb (ok_names o0) then [(0%nat, 3%nat)] else []) ++
       (if ok_meta_engine o0 then [] else [(0%nat, 4%nat)]) ++
-      why_steps v 1 (okeys o0) true o0 tr
+      why_steps v 1 (okeys o0) (ok_meta_engine o0) o0 tr
   end.
 
 Definition ok_C15 (c : case_t) : bool :=
@@ -191,7 +205,7 @@ Definition ok_C15 (c : case_t) : bool :=
   | (v, o0, tr) =>
       (* the initial state (system channels created by the cluster itself) already obeys 3 and 4 *)
       (if v then ok_names o0 else true) && ok_meta_engine o0 &&
-      ok_steps v (okeys o0) true o0 tr
+      ok_steps v (okeys o0) (ok_meta_engine o0) o0 tr
   end.
 Definition violates (c : case_t) : bool := negb (ok_C15 c).
 
